@@ -443,20 +443,29 @@ class WrapperMixin(object):
         """
         output.append(self.doxygen_begin)
         if "brief" in docs:
-            output.append(self.doxygen_cont + " \\brief %s" % docs["brief"])
+            # Every line of the text needs the comment prefix.
+            lines = docs["brief"].split("\n")
+            if len(lines) > 1 and lines[-1] == "":
+                lines.pop()  # remove trailing newline
+            output.append(self.doxygen_cont + " \\brief %s" % lines[0])
+            for line in lines[1:]:
+                output.append(self.doxygen_cont + " " + line)
             output.append(self.doxygen_cont)
         if "description" in docs:
             desc = docs["description"]
+            lines = desc.split("\n")
             if desc.endswith("\n"):
-                lines = docs["description"].split("\n")
                 lines.pop()  # remove trailing newline
-            else:
-                lines = [desc]
             for line in lines:
                 output.append(self.doxygen_cont + " " + line)
         if "return" in docs:
+            lines = docs["return"].split("\n")
+            if len(lines) > 1 and lines[-1] == "":
+                lines.pop()  # remove trailing newline
             output.append(self.doxygen_cont)
-            output.append(self.doxygen_cont + " \\return %s" % docs["return"])
+            output.append(self.doxygen_cont + " \\return %s" % lines[0])
+            for line in lines[1:]:
+                output.append(self.doxygen_cont + " " + line)
         output.append(self.doxygen_end)
 
     def document_stmts(self, output, ast, stmt0, stmt1):
